@@ -16,7 +16,7 @@ def config(F, which):
     body0 = F.impl_method("core::future::future::Future", "selium_server::topic::%s::Topic" % which, "poll")
     # helper functions the poll body is split into are looked through; the sink combinators (modelled as operations) stay calls
     keep = [p for p in F.bodies if "::sink::" in p or p.startswith("<selium_server::sink") or "::project" in p]
-    body = F.inlined(body0, keep=keep)
+    body = F.inlined(body0, keep=keep, only=("selium_server::topic::", "selium_server::sink::"))
     adt = F.adt("selium_server::topic::%s::TopicProj" % which)
     names = [f["name"] for f in adt["variants"][0]["fields"]]
     if which == "pubsub":
